@@ -4,9 +4,9 @@ from vlib.core import Case, BUILD
 
 ID = "C14"
 LEAN_MODULE = "Ctrmml.Properties.C14"
-THEOREMS = ["C14_inv_histories_partial", "C14_content_stable", "C14_fresh_disjoint", "C14_bank_rule", "C14_dedupe",
-            "C14_dedupe_complete", "C14_header_roundtrip", "C14_reader_total", "C14_add_total", "C14_wav_decode",
-            "C14_tag_window_partial", "C14_offset_fresh_stored", "C14_offset_window_counterexample"]
+THEOREMS = ["C14_inv_histories", "C14_content_stable", "C14_fresh_disjoint", "C14_bank_rule", "C14_dedupe",
+            "C14_dedupe_complete", "C14_header_roundtrip", "C14_reader_total", "C14_reader_size", "C14_add_total", "C14_wav_decode",
+            "C14_tag_window", "C14_offset_fresh_stored", "C14_offset_window_regression", "C14_full"]
 LEVEL = "proof"
 STREAM = "wave.ops"
 CHUNK = 40
@@ -22,10 +22,9 @@ EXPLANATION = ("theorems over Model/Wave + Spec/Alloc (all histories of admissib
                "regions and gaps, bank rule, stored-once, content stability) is applied to the implementation's answers")
 ASSUMPTIONS = ["banks and sample data below 1 GiB (int/uint32_t arithmetic of wave.cpp does not wrap)",
                "one include path (the default \"\")",
-               "files shorter than 2^32-1 bytes (the reader keeps the file size in a uint32_t)",
+               "files of more than 2^31-1 bytes are refused by load_file (modelled; the limit itself is not exercised on the real code)",
                "wav_decode covers files made of fmt, data, an optional smpl chunk without loop records and arbitrary other chunks; "
-               "smpl loops (which shorten the sample to the loop end) are modelled and diffed but not part of the decode theorem",
-               "partial: additions whose data is placed fresh with a non-zero start offset are excluded (known finding D11)"]
+               "smpl loops (which shorten the sample to the loop end) are modelled and diffed but not part of the decode theorem"]
 TRUSTED = ["Spec/Alloc.lean (windows, tiling, bank rule, PCM conversion and canonical WAV layout)"]
 
 
@@ -134,17 +133,20 @@ def fmtx(bits, ch, rate=8000):
 
 def malformed(rng):
     """(filespec, tags): files that used to make Wave_File::read / add_sample read outside a buffer or loop
-    forever (fixed f90557f..cc35940), and random corruptions of well-formed files"""
+    forever (fixed 3c87fd7..2288e89), and random corruptions of well-formed files"""
     n = rng.choice([1, 2, 5, 8, 9, 16])
     d = data_bytes(n, rng.randrange(256))
     bits = rng.choice([8, 16])
     ch = rng.choice([1, 2])
     f = fmtx(bits, ch)
     kind = rng.choice(["width", "riff-size-large", "trailing-bytes", "no-chunks", "no-fmt", "smpl-loop-beyond", "size-wrap-unknown",
-                       "size-wrap-data", "size-wrap-fmt", "empty-data", "empty-list", "partial-frame", "smpl-short-loop",
+                       "size-wrap-data", "size-wrap-fmt", "empty-data", "empty-list", "partial-frame", "smpl-short-loop", "fmt-product",
                        "mut-trunc", "mut-field", "mut-byte", "mut-byte", "mut-field"])
     if kind == "width":
         b = riff([fmtx(rng.choice([4, 12, 24, 32, 0, 7, 9, 15, 17]), rng.choice([1, 2])), chunk(b"data", d)])
+    elif kind == "fmt-product":
+        # bits * channels beyond INT_MAX: the frame size used to be computed in (promoted) int
+        b = riff([fmtx(rng.choice([51464, 65535, 46341, 65528, 32768]), rng.choice([49921, 65535, 46341, 65528, 32768])), chunk(b"data", d)])
     elif kind == "riff-size-large":
         full = riff([f, chunk(b"data", d)])
         b = full[:4] + le32(len(full) - 8 + rng.choice([1, 2, 7, 8, 9, 100, 0x7fffffff, 0xfffffff0])) + full[8:]
@@ -227,8 +229,8 @@ def gen_history(rng, big):
             if rng.random() < 0.25:
                 args.append(rng.choice(["rate=%d", "rate_=_%d", "rate=%d", "rate_=%d"]) % rng.choice([4000, 11025, 17500, 44100, 0, 4294967295]))
                 tags.add("rate-override")
-            if rng.random() < 0.05:
-                off = rng.choice([0, 0, 1, n // 2, n, n + 1, 4])
+            if rng.random() < 0.2:
+                off = rng.choice([0, 1, 1, n // 2, n // 2, n, n + 1, 4, 4])
                 args.append("offset=%d" % off)
                 tags.add("offset-override" if off else "offset-zero")
             if rng.random() < 0.03:
@@ -242,10 +244,12 @@ def gen_history(rng, big):
             seen.add((seed, n))
             start = 0
             size = n
-            if rng.random() < 0.02 and n > 1:
+            if rng.random() < 0.12 and n > 1:
                 start = rng.randrange(1, n)
-                size = n - start
+                size = rng.choice([n - start, n - start, rng.randrange(0, n - start + 1), n - start + 1, n])
                 tags.add("raw-start")
+                if start + size > n:
+                    tags.add("raw-start-beyond-data")
             ls = rng.choice([0, 0, 0, 0, 5])
             if ls:
                 tags.add("loop-start")
@@ -276,19 +280,30 @@ def gen_history(rng, big):
 
 
 CORPUS = [
-    # D11: offset= shrinks the allocation but not the copy origin
+    # D11 (repaired; regression): offset= used to shrink the allocation but not move the copy origin, so the window
+    # handed out began `offset` bytes late and ran into the next sample / unused rom
+    ("wave 32 0 | R 4 12 0 0 8000 0 0 h:101112131415161718191a1b1c1d1e1f", ["corpus", "raw-start", "d11-regression"]),
+    ("wave 32 0 | R 4 12 0 0 8000 0 0 h:101112131415161718191a1b1c1d1e1f | R 0 16 0 0 8000 0 0 h:a0a1a2a3a4a5a6a7a8a9aaabacadaeaf", ["corpus", "raw-start", "d11-regression"]),
+    # offset sample first, then the whole sample, then the offset sample again (shares the whole one), then once more (header reused)
+    ("wave 256 0 | T w:8:1:8000:16:16 offset=4 | T w:8:1:8000:16:16 | T w:8:1:8000:16:16 offset=4 | T w:8:1:8000:16:16 offset=4 | T w:8:1:8000:16:16 offset=4 rate=4000",
+     ["corpus", "offset-override", "repeat", "d11-regression"]),
+    # window beyond the data handed over: input error, state unchanged
+    ("wave 256 0 | R 4 13 0 0 8000 0 0 f:16:1 | R 16 1 0 0 8000 0 0 f:16:1 | R 4294967295 2 0 0 8000 0 0 f:16:1 | R 16 0 0 0 8000 0 0 f:16:1 | R 3 13 0 0 8000 0 0 f:16:1",
+     ["corpus", "raw-start", "raw-start-beyond-data"]),
+    # offsets across bank boundaries: the window, not the whole file, is what has to obey the bank rule
+    ("wave 256 64 | R 0 60 0 0 1 0 0 f:60:1 | T w:8:1:8000:70:9 offset=10 | T w:16:2:8000:70:9 offset=66 | T w:8:1:8000:70:9 offset=6", ["corpus", "offset-override", "bank-cross"]),
     ("wave 256 0 | T w:8:1:8000:16:16 offset=4 | T w:8:1:8000:16:160", ["corpus", "offset-override"]),
     ("wave 256 64 | R 0 40 0 0 1 0 0 f:40:1 | R 0 40 0 0 1 0 0 f:40:2 | T w:8:1:8000:12:7 offset=2", ["corpus", "offset-override", "gap-reuse"]),
     # offset sample that shares an earlier whole sample: fine
     ("wave 256 0 | T w:8:1:8000:16:16 | T w:8:1:8000:16:16 offset=4", ["corpus", "offset-override", "repeat"]),
-    # duplicate detector used to match unallocated (zero) rom behind a stored sample; fixed b5437a3
+    # duplicate detector used to match unallocated (zero) rom behind a stored sample; fixed 1a012dd
     ("wave 256 0 | R 0 3 0 0 8000 0 0 h:010203 | R 0 5 0 0 8000 0 0 h:0102030000 | R 0 2 0 0 8000 0 0 h:0909", ["corpus", "dup-span"]),
     ("wave 256 64 | R 0 40 0 0 1 0 0 h:" + "07" * 40 + " | R 0 40 0 0 1 0 0 f:40:2 | R 0 44 0 0 1 0 0 h:" + "07" * 40 + "00000000 | R 0 4 0 0 1 0 0 h:01020304",
      ["corpus", "dup-span", "gap-reuse"]),
-    # empty sample against a non-empty bank: UB in find_duplicate; fixed 89e18fe
+    # empty sample against a non-empty bank: UB in find_duplicate; fixed 13b11d2
     ("wave 256 0 | R 0 3 0 0 8000 0 0 h:010203 | R 0 0 0 0 8000 0 0 h:-", ["corpus", "zero-length"]),
     ("wave 256 0 | R 0 0 0 0 8000 0 0 h:- | R 0 0 0 0 8000 0 0 h:- | T w:8:1:8000:4:1 offset=4", ["corpus", "zero-length"]),
-    # prefix of a sample larger than a bank crossed a bank boundary; fixed e41ec81
+    # prefix of a sample larger than a bank crossed a bank boundary; fixed 97b9d08
     ("wave 256 64 | R 0 32 0 0 8000 0 0 f:32:1 | R 0 70 0 0 8000 0 0 f:70:2 | R 0 40 0 0 8000 0 0 f:40:2", ["corpus", "prefix-of-earlier", "bank-cross"]),
     # capacity: exact fit of the last bank is refused, state unchanged after errors
     ("wave 16 0 | R 0 10 0 0 8000 0 0 f:10:1 | R 0 10 0 0 8000 0 0 f:10:2 | R 0 6 0 0 1 0 0 f:6:3 | T m: | T - | T w:8:1:8000:0:1 | T w:8:1:8000:4:1 offset=5",
@@ -310,7 +325,7 @@ def _x(b):
 _D8 = data_bytes(8, 1)
 _F8 = fmt_chunk(8, 1, 8000)
 CORPUS += [
-    # reader defects fixed f90557f .. cc35940 (each used to crash the sanitizer build or never return)
+    # reader defects fixed 3c87fd7 .. 2288e89 (each used to crash the sanitizer build or never return)
     (_x(riff([fmtx(24, 1), chunk(b"data", _D8 + b"\1")])), ["corpus", "malformed", "malformed-width"]),
     (_x(riff([fmtx(4, 2), chunk(b"data", _D8)])), ["corpus", "malformed", "malformed-width"]),
     (_x(riff([_F8, chunk(b"data", _D8)], size=200)), ["corpus", "malformed", "malformed-riff-size-large"]),
@@ -327,6 +342,9 @@ CORPUS += [
     (_x(riff([_F8, chunk(b"data", _D8), chunk(b"smpl", le32(0) * 3 + le32(60) + le32(0) * 3 + le32(1) + le32(0) + le32(0) * 2)])),
      ["corpus", "malformed", "malformed-smpl-short-loop"]),
     ("wave 256 0 | R 0 9 0 0 8000 0 0 f:8:1 | R 2 9 0 0 8000 0 0 f:8:1", ["corpus", "header-longer-than-data"]),
+    # sbits * channels overflowed int in the fmt case (UBSan wave.cpp:144); fixed aa1e920
+    ("wave 256 64 | T x:524946462a00000057415645666d742010000000010001c3401f0000401f0000010008c964617461050026002b4a69886800", ["corpus", "malformed", "malformed-fmt-product"]),
+    (_x(riff([fmtx(65535, 65535), chunk(b"data", _D8)])), ["corpus", "malformed", "malformed-fmt-product"]),
 ]
 
 SIZES_EX = [0, 1, 8, 15, 16, 17, 33]
@@ -393,23 +411,7 @@ def finding_key(case, impl, judge):
     m = re.match(r"fail (\S+)(?: step=(\d+))?", judge)
     if not m:
         return "judge"
-    reason = m.group(1)
-    if m.group(2) is not None and reason in ("window-content", "window-outside", "window-unhoused"):
-        ops = _ops(case.req)
-        k = int(m.group(2))
-        if k < len(ops):
-            t = ops[k].split()
-            off = 0
-            if t[0] == "T":
-                for a in t[2:]:
-                    mm = re.match(r"offset_?=_?(\d+)$", a)
-                    if mm:
-                        off += int(mm.group(1))
-            elif t[0] == "R":
-                off = int(t[1])
-            if off:
-                return "d11:offset-window"
-    return reason
+    return m.group(1)
 
 
 def shrink(req):
@@ -439,9 +441,11 @@ LEVEL_TEXT = ("Machine-checked theorems over a Lean model of wave.cpp: an invari
               "data is found again and adds nothing; failed additions leave the bank unchanged; the reader decodes every canonical 8/16-bit "
               "mono/stereo WAV file (fmt, data, optional smpl, any other chunks) to the 8-bit unsigned conversion of channel 0 (proved for all "
               "recordings); the reader and add_sample(Tag) are total on every byte string (no out-of-bounds read, no unbounded loop); "
-              "headers round-trip. Partial: additions placed fresh with a "
-              "non-zero start offset are excluded (D11, counterexample theorem + known finding). Model tied to the code by regenerated "
-              "constants and by diffing model and wave.cpp on generated histories.")
+              "headers round-trip. Since the repair of D11 (fresh placements store the playback window and hand out start = 0) the "
+              "history theorems carry no exclusion and the whole property is one theorem, C14_full (reader clause + bank clause). Model "
+              "tied to the code by regenerated constants (incl. the shape of the repaired lines) and by diffing model and wave.cpp on "
+              "generated histories.")
 LEVEL_NOTE = ("Trusted: Lean kernel (axioms propext, Classical.choice, Quot.sound at most), the hand-written model Model/Wave.lean (agreement with "
               "wave.cpp established by differential testing, not proved), Spec/Alloc.lean, banks and data < 1 GiB, g++/ASan/UBSan and the harness. "
-              "Extra hypothesis of the _partial theorems: every addition that is placed fresh has header.start = 0 (no offset= override).")
+              "No _partial theorem is left; C14_reader_total has no size hypothesis (load_file's 2^31-1 limit is part of the model). Decided per "
+              "case by the oracle only: smpl-loop files (sample cut at the loop end) and hand-made chunk layouts outside the canonical one.")
